@@ -82,7 +82,8 @@ def diff_obs(expected, observed, alt_keys=()):
         if k not in observed:
             return "query %r missing from the observation" % (k,)
         e, o = expected[k], observed[k]
-        ok = alt_equal(e, o) if k in alt_keys else (e == o)
+        is_alt = k in alt_keys or (isinstance(k, tuple) and k and k[0] in alt_keys)
+        ok = alt_equal(e, o) if is_alt else (e == o)
         if not ok:
             path = [k]
             # descend into nested dicts to name the first differing sub-query
